@@ -34,6 +34,9 @@ H = {
 for j in range(15):
     H['table16_succ_%02d' % j] = ('k_tables.rs', 'crate', ('quick', 'thorough'), 'TABLE16[%d+1][i] is one zero-byte step of TABLE16[%d][i]' % (j, j), 'complete (256 concrete entries)')
 
+# scans whose expression Verus verifies where it stands (R22 + a std specification of slice::Iter::position): the Kani run is no longer what the
+# property rests on
+IN_PLACE = {'find_input_scan': 'unit decode, StateAnyTrans::find_input', 'registry_find': 'unit registry, RegistryCache::entry'}
 # which hoisted helper comes from which Verus unit
 HOIST_UNITS = {'hoist_find_input': 'decode', 'vx_hoist_seek_position': 'stream', 'vx_hoist_getkey': 'getkey', 'hoist_find': 'registry'}
 SCAN_HOISTS = {'find_input_scan': 'hoist_find_input', 'seek_position': 'vx_hoist_seek_position', 'getkey_take_while_last': 'vx_hoist_getkey',
@@ -199,7 +202,11 @@ def run_groups(harnesses, tier, repo, work):
             r['info']['hoisted_text'] = texts
             for hn in scan_h:
                 wv = w[hn]
-                r['assumptions'].append('K-scan %s: fan-out window %d (%s)' % (hn, wv, 'every fan-out a node can have: complete' if wv >= 256 else 'BOUNDED stand-in, not counted as proved beyond this fan-out'))
+                if hn in IN_PLACE:
+                    r['assumptions'].append('K-scan %s: fan-out window %d - a second, bounded run of the same text that supplies a replayable counterexample; the obligation itself is '
+                                            'discharged for every length by Verus on the expression in place (%s)' % (hn, wv, IN_PLACE[hn]))
+                else:
+                    r['assumptions'].append('K-scan %s: fan-out window %d (%s)' % (hn, wv, 'every fan-out a node can have: complete' if wv >= 256 else 'BOUNDED stand-in, not counted as proved beyond this fan-out'))
     for h in sel:
         x = results.get(h)
         if x is None or x['status'] is None:
